@@ -63,7 +63,7 @@ def eval_calls(cases, calls, run=None, model=True):
     """calls: list of (file index (0-based), op, args) -> list of oracle answers {alts, needed, model}"""
     payload = {'files': [c.F for c in cases],
                'calls': [{'f': f + 1, 'op': op, 'a': list(a), 'model': bool(model)} for f, op, a in calls]}
-    out = tlc.oracle('Gen_Api', payload)
+    out = tlc.oracle('Gen_Api', payload, timeout=3600 if (run is not None and getattr(run, 'tier', 'quick') == 'thorough') else 900)
     if run is not None:
         run.add_tlc({'distinct': 0, 'generated': out['_tlc']['generated'], 'wall_s': out['_tlc']['wall_s']}, 'Gen_Api(calls)')
     return out['calls']
